@@ -606,7 +606,7 @@ def OutQOk (res : Res (Option Token)) (cap : Nat) (pos : Nat) (bom : Bom) (d : B
   | none => True
 
 def OutQ (res : Res (Option Token)) (cap : Nat) (pos : Nat) (bom : Bom) (d : Bytes) : Prop :=
-  FullAlt cap d res ∨ OutQOk res cap pos bom d
+  FullAlt (Carry (pos == 0) bom d) cap d res ∨ OutQOk res cap pos bom d
 
 theorem Out.toQ {res : Res (Option Token)} {cap pos : Nat} {bom : Bom} {d : Bytes} (h : Out res cap pos bom d) :
     OutQ res cap pos bom d := by
@@ -626,10 +626,14 @@ theorem Out.toQ {res : Res (Option Token)} {cap pos : Nat} {bom : Bom} {d : Byte
 /-- one swallowed space in front does not matter -/
 theorem OutQ_space {res : Res (Option Token)} {cap pos : Nat} {bom : Bom} {tl : Bytes}
     (h : OutQ res cap (pos + 1) bom tl) : OutQ res cap pos bom (32 :: tl) := by
-  rcases h with h | h
-  · left; exact h.mono (by simp)
-  right
   have hs : Skips (pos == 0) [32] 0 bom bom := .blank (by decide) (.nil _ _)
+  rcases h with h | h
+  · left
+    refine h.mono (by simp) ?_
+    intro k hk
+    have := Carry_skip (pos := pos) (pre := [32]) (y := tl) hs k (by simpa using hk)
+    simpa using this
+  right
   have hp : (pos + 1 == 0) = false := by simp
   have hsp := spec_skip hs (by simp) tl
   unfold OutQOk at h ⊢
@@ -780,5 +784,87 @@ theorem lexAll_vs_slice (n : Nat) : ∀ (r1 r2 : Reader) (pos : Nat) (bom : Bom)
         right
         simp only [lexAll, next, e1, e2]
         exact ⟨by simp, by simp, fun h => by simp at h⟩
+
+end Jomini.TextReader
+
+namespace Jomini.TextReader
+open Jomini Jomini.TextReader.Spec Jomini.TextReader.Swar
+
+/-! ### BufferFull only when something does not fit -/
+
+theorem le_maxOver (f : Nat → Nat) : ∀ (n j : Nat), j ≤ n → f j ≤ maxOver n f := by
+  intro n
+  induction n with
+  | zero => intro j hj; have : j = 0 := by omega
+            subst this; simp [maxOver]
+  | succ n ih =>
+    intro j hj
+    simp only [maxOver]
+    by_cases h : j = n + 1
+    · subst h; exact Nat.le_max_left _ _
+    · exact Nat.le_trans (ih j (by omega)) (Nat.le_max_right _ _)
+
+/-- every carry of a call needs one byte less than `callNeed` -/
+theorem Carry_lt_callNeed {pos0 : Bool} {bom : Bom} {d : Bytes} {k : Nat} (h : Carry pos0 bom d k) :
+    k + 1 ≤ callNeed pos0 bom d := by
+  unfold callNeed
+  have key : ∀ (b0 : Bom), CarryB pos0 b0 d k →
+      ∃ j, j ≤ d.length ∧ k + 1 ≤ carryNeed (d.take j) (fbLoop pos0 (d.take j) .top 0 b0) := by
+    rintro b0 ⟨w, b, hd, hh⟩
+    refine ⟨w.length, by rw [hd]; simp, ?_⟩
+    have : d.take w.length = w := by rw [hd]; simp
+    rw [this]
+    rcases hh with ⟨bom', st, off, hf⟩ | ⟨bom', hf, hk⟩
+    · rw [hf]; simp [carryNeed]
+    · rw [hf, hk]; simp [carryNeed]
+  let F : Nat → Nat := fun j =>
+    max (carryNeed (d.take j) (fbLoop pos0 (d.take j) .top 0 bom))
+        (if d.length < 3 then carryNeed (d.take j) (fbLoop pos0 (d.take j) .top 0 .notPresent) else 0)
+  show k + 1 ≤ maxOver d.length F
+  rcases h with h | ⟨h3, h⟩
+  · obtain ⟨j, hj, hle⟩ := key bom h
+    have h1 : carryNeed (d.take j) (fbLoop pos0 (d.take j) .top 0 bom) ≤ F j := Nat.le_max_left _ _
+    exact Nat.le_trans hle (Nat.le_trans h1 (le_maxOver F d.length j hj))
+  · obtain ⟨j, hj, hle⟩ := key .notPresent h
+    have h1 : carryNeed (d.take j) (fbLoop pos0 (d.take j) .top 0 .notPresent) ≤ F j := by
+      show _ ≤ max _ (if d.length < 3 then _ else 0)
+      simp only [h3, if_true]
+      exact Nat.le_max_right _ _
+    exact Nat.le_trans hle (Nat.le_trans h1 (le_maxOver F d.length j hj))
+
+/-- **no `BufferFull` when everything fits**, for the whole run of `next` calls (any schedule, faults included). -/
+theorem lexAll_no_full (n : Nat) : ∀ (r : Reader) (pos : Nat) (bom : Bom) (d : Bytes) (f : Nat) (acc : List Token),
+    RelQ r pos bom d → needFrom n pos bom d ≤ r.cap → 2 * d.length + 4 ≤ f →
+    (lexAll f n r acc).out ≠ .err .full := by
+  induction n with
+  | zero => intro r pos bom d f acc _ _ _; simp [lexAll]
+  | succ n ih =>
+    intro r pos bom d f acc hrel hneed hf
+    have o := nextOpt_specQ r pos bom d f hrel hf
+    simp only [needFrom] at hneed
+    have hcall : callNeed (pos == 0) bom d ≤ r.cap := Nat.le_trans (Nat.le_max_left _ _) hneed
+    rcases o with ⟨hne, r', ⟨hfull, hle, _, hq⟩ | hio⟩ | o
+    · exfalso
+      have := Carry_lt_callNeed hq
+      omega
+    · simp [lexAll, next, hio]
+    · unfold OutQOk at o
+      cases hsp : specStep (pos == 0) bom d with
+      | none => rw [hsp] at o; have := specStep_isSome (pos == 0) bom d; rw [hsp] at this; simp at this
+      | some st =>
+        rw [hsp] at o hneed
+        cases st with
+        | tok adv t b' =>
+          obtain ⟨r1, e1, hr1, _, hc1⟩ := o
+          simp only [lexAll, next, e1]
+          have hl : (d.drop adv).length ≤ d.length := by simp
+          refine ih r1 (pos + adv) b' (d.drop adv) f (t :: acc) hr1 ?_ (by omega)
+          rw [hc1]; exact Nat.le_trans (Nat.le_max_right _ _) hneed
+        | end_ b' =>
+          obtain ⟨r1, e1, _⟩ := o
+          simp [lexAll, next, e1]
+        | eof a b' =>
+          obtain ⟨r1, e1, _⟩ := o
+          simp [lexAll, next, e1]
 
 end Jomini.TextReader
